@@ -193,3 +193,21 @@ V("c15-splice-kwargs-blind", "break", ["C15"], (SF, "    for name in list(signat
 V("c15-attn-no-varargs", "break", ["C15"], (SF, "    bwd_format_tuple: Tuple[int, int],\n    *args: Any,\n    **kwargs: Any,\n) -> Tensor:\n    fwd_format = tuple_to_format(fwd_format_tuple)\n    bwd_format = tuple_to_format(bwd_format_tuple)\n    query, key, value = (fwd_format.quantise_fwd(t) for t in (query, key, value))\n    output = F.scaled_dot_product_attention(query, key, value, *args, **kwargs)", "    bwd_format_tuple: Tuple[int, int],\n    **kwargs: Any,\n) -> Tensor:\n    fwd_format = tuple_to_format(fwd_format_tuple)\n    bwd_format = tuple_to_format(bwd_format_tuple)\n    query, key, value = (fwd_format.quantise_fwd(t) for t in (query, key, value))\n    output = F.scaled_dot_product_attention(query, key, value, **kwargs)"), expect="F.scaled_dot_product_attention")
 V("c15-splice-position", "break", ["C15"], (SF, "        args[:3] + [format_to_tuple(fwd_format), format_to_tuple(bwd_format)] + args[3:]", "        args[:3] + [format_to_tuple(bwd_format), format_to_tuple(fwd_format)] + args[3:]"))
 V("c15-keep-genexpr", "keep", ["C15"], (SF, "    input = fwd_format.quantise_fwd(input)\n    weight = fwd_format.quantise_fwd(weight)\n    output = F.linear(input, weight, bias)", "    input, weight = (fwd_format.quantise_fwd(t) for t in (input, weight))\n    output = F.linear(input, weight, bias=bias)"))
+
+# ---------------------------------------------------------------- C18
+TS = "unit_scaling/transforms/_track_scales.py"
+UT = "unit_scaling/utils.py"
+V("c18-fwd-mul", "break", ["C18"], (TS, "        ctx.node_meta = node_meta  # type: ignore\n        return t.clone()", "        ctx.node_meta = node_meta  # type: ignore\n        return t * 1.0"), expect="ScaleTrackingAutogradFunction.forward")
+V("c18-fwd-detach", "break", ["C18"], (TS, "        ctx.node_meta = node_meta  # type: ignore\n        return t.clone()", "        ctx.node_meta = node_meta  # type: ignore\n        return t.detach().clone()"))
+V("c18-bwd-scaled", "break", ["C18"], (TS, "        return t.clone(), None, None", "        return t.clone() * 2, None, None"))
+V("c18-utils-fwd", "break", ["C18"], (UT, "        ctx.scale_tracker = scale_tracker  # type: ignore\n        return t\n", "        ctx.scale_tracker = scale_tracker  # type: ignore\n        return t.float()\n"))
+V("c18-var", "break", ["C18"], (TS, "            std=t.std().item(),", "            std=t.var().item(),"), expect="from_tensor::std")
+V("c18-swap", "break", ["C18"], (TS, "            mean_abs=abs_t.mean().item(),\n            abs_mean=t.mean().abs().item(),", "            mean_abs=t.mean().abs().item(),\n            abs_mean=abs_t.mean().item(),"))
+V("c18-absmin", "break", ["C18"], (TS, "            abs_min=abs_t.min().item(),", "            abs_min=t.min().abs().item(),"))
+V("c18-int-instrumented", "break", ["C18"], (TS, "        if n.meta[\"outputs_float_tensor\"]:\n            logger.info(\"adding tracking to node: %s\", n)", "        if isinstance(out, Tensor):\n            logger.info(\"adding tracking to node: %s\", n)"), expect="predicate")
+V("c18-bwd-metrics-from-fwd", "break", ["C18"], (TS, "        ctx.node_meta[\"metrics\"].set_bwd(bwd_tensor=t)  # type: ignore", "        ctx.node_meta[\"metrics\"].set_bwd(bwd_tensor=t.abs())  # type: ignore"))
+V("c18-bwd-init", "break", ["C18"], (TS, "        self.bwd: Optional[Metrics.Data] = None", "        self.bwd: Optional[Metrics.Data] = self.fwd"))
+V("c18-shim-detach", "break", ["C18"], (TS, "        return old_forward(*args, **kwargs)", "        return old_forward(*[a.detach() if _is_float_tensor(a) else a for a in args], **kwargs)"))
+V("c18-utils-wrap-wrong", "break", ["C18"], (UT, "            out = ScaleTracker.track(out, scale_pair)\n", "            ScaleTracker.track(out, scale_pair)\n"))
+V("c18-keep-noclone", "keep", ["C18"], (TS, "        ctx.node_meta = node_meta  # type: ignore\n        return t.clone()", "        ctx.node_meta = node_meta  # type: ignore\n        return t"))
+V("c18-keep-abs-inline", "keep", ["C18"], (TS, "            abs_max=abs_t.max().item(),", "            abs_max=t.abs().max().item(),"))
